@@ -130,6 +130,13 @@ MUTANTS = [
      "                \"--\",\n", "", ["C11"]),
     ("revert-D43-generated-name-not-tested", "cli/archive.py",
      "        if output_path.exists():\n            # Generated names have a resolution of one second; never\n", "        if False:\n            # Generated names have a resolution of one second; never\n", ["C11"]),
+    # fourth phase: one mutant per new translator fragment (each is red with a concrete input; the translator refuses or re-translates it as well)
+    ("lowering-experiments-not-recorded", "execution/planning/planner.py", "                        record_output=True,", "                        record_output=False,", ["C10"]),
+    ("lowering-args-not-serialised", "execution/planning/planner.py", "                        serialize_args_options=True,", "                        serialize_args_options=False,", ["C10"]),
+    ("finished-op-enqueues-one-early", "execution/executor.py", "            if dep_of.waiting_on > 0:", "            if dep_of.waiting_on > 1:", ["C01"]),
+    ("first-visit-visited-dependency-not-linked", "execution/planning/planner.py",
+     "                        dep = visited[dep_ident]\n                        lt.deps.append(dep)\n                        continue", "                        dep = visited[dep_ident]\n                        continue", ["C01"]),
+    ("clean-goes-on-after-the-index-could-not-be-removed", "cli/clean.py", "        sys.exit(1)\n    shutil.rmtree(ctx.output_path, ignore_errors=True)", "        pass\n    shutil.rmtree(ctx.output_path, ignore_errors=True)", ["C06"]),
     ("loader-no-dup-check", "parsing/task_index.py",
      "                    if dep_identifier in task_deps_set:\n", "                    if dep_identifier in task_deps_set and len(task_deps) > 2:\n", ["C14"]),
 ]
